@@ -333,10 +333,10 @@ PROPERTIES["C19"] = {
     "outside": ["parsing of arbitrary text (stod/stoll on garbage beyond the 4-string alphabet)", "factory clause 'behaves identically' (behavioural equivalence of clones beyond equal parameters)", "data-source, generator and function factories (objects that need files / have no parameters / are covered by C06)"],
     "units": [
         {"engine": "sbv", "harness": "C19_names", "sources": ["C19_names.cpp", "sbv_support.cpp"],
-         "quick": ["L=3", "L=4", "obj=solver;L=16", "obj=solver;L=22"],
-         "thorough": ["L=3", "L=4", "L=5", "obj=solver;L=16", "obj=solver;L=22", "obj=solver;L=28"],
+         "quick": ["L=3", "L=4", "obj=solver;L=16", "obj=solver;L=22", "mode=enum;L=5", "mode=enum;L=6"],
+         "thorough": ["L=3", "L=4", "L=5", "obj=solver;L=16", "obj=solver;L=22", "obj=solver;L=28", "mode=enum;L=5", "mode=enum;L=6", "mode=enum;L=8"],
          "budget": {"quick": {"deadline_s": 100, "max_paths": 20000, "query_s": 20}, "thorough": {"deadline_s": 900, "max_paths": 200000, "query_s": 60}},
-         "encoded": ["nano::configurable_t::{register_parameter, parameter_if, parameter} + the file-local find_param with a SYMBOLIC name (every byte string up to the configured length)", "nano::parameter_t::{value<T>, value_pair<T>} kind checks (integer, scalar, pair, enumeration, string)"]},
+         "encoded": ["nano::configurable_t::{register_parameter, parameter_if, parameter} + the file-local find_param with a SYMBOLIC name (every byte string up to the configured length)", "nano::parameter_t::{value<T>, value_pair<T>} kind checks (integer, scalar, pair, enumeration, string)", "nano::parameter_t::operator=(string_t) on an enumeration parameter with a SYMBOLIC string (file-local update(name, enum_t&, value))"]},
         {"engine": "sre", "harness": "C19_params", "sources": ["C19_params.cpp"],
          "quick": ["kind=fr;lo=%d;hi=%d;ops=3;ser=%d" % (a, b, a) for a in (0, 1) for b in (0, 1)] + ["kind=fr;lo=0;hi=1;ops=2;sp=%d" % s for s in (1, 2, 3, 4, 5)] +
                   ["kind=fp;ops=2;lo=0;mid=0;hi=0", "kind=fp;ops=2;lo=1;mid=1;hi=1", "kind=fp;ops=1;sp=1", "kind=ir;ops=2;lo=0;hi=1", "kind=ir;ops=2;lo=1;hi=0",
@@ -585,7 +585,7 @@ PROPERTIES["C09"] = {
         {"engine": "sre", "harness": "C09_linear", "sources": ["C09_linear.cpp"],
          "quick": ["f=rrr;n=3;loss=mse", "f=rrr;n=3;loss=mse;reg=3;miss=1;sc=1", "f=rsr;n=3;loss=mse;sc=2;reg=2;batch=2", "f=rrr;n=3;loss=mse;sc=3;cache=1", "f=rrr;n=2;loss=mae;reg=3;miss=1",
                    "f=rrr;n=3;loss=mae;reg=1;batch=2", "f=rrs;n=1;loss=m-hinge;reg=1", "f=rrs;n=1;loss=m-squared-hinge;reg=2;sc=2", "f=rmr;n=3;loss=mse;miss=4;cache=1",
-                   "f=rrr;n=3;loss=mse;reg=3;batch=1;threads=2;sched=0", "f=rrr;n=3;loss=mse;reg=3;batch=1;threads=3;sched=2", "f=rrr;n=3;loss=mae;reg=1;batch=1;threads=3;sched=1", "f=rrr;n=2;loss=mse;batch=1;threads=2;sched=3",
+                   "f=rrr;n=3;loss=mse;reg=3;sub=2", "f=rrr;n=3;loss=mae;reg=1;sub=2;sc=1;miss=1", "f=rrr;n=3;loss=mse;reg=3;batch=1;threads=2;sched=0", "f=rrr;n=3;loss=mse;reg=3;batch=1;threads=3;sched=2", "f=rrr;n=3;loss=mae;reg=1;batch=1;threads=3;sched=1", "f=rrr;n=2;loss=mse;batch=1;threads=2;sched=3",
                    "f=rrr;n=3;loss=mse;sc=3;cache=1;batch=2;threads=2;sched=0", "f=rrr;n=3;loss=mse;batch=1;threads=6;sched=3", "f=rrr;n=3;loss=mse;reg=3;batch=1;threads=7;sched=2", "f=rrr;n=3;loss=mse;batch=1;threads=12;sched=2",
                    "f=rrr;n=3;loss=mae;batch=1;threads=16;sched=0", "f=rrr;n=3;loss=mse;batch=1;threads=5;sched=0", "f=rrr;n=3;loss=mse;batch=1;threads=10;sched=1",
                    "f=rrr;n=2;loss=mse;batch=1;threads=16;sched=3;arb=1", "f=rrr;n=2;loss=mse;batch=1;threads=13;sched=3;arb=2", "f=rrr;n=2;loss=mse;batch=1;threads=10;sched=3;arb=0"],
@@ -599,7 +599,8 @@ PROPERTIES["C09"] = {
         {"engine": "sre", "harness": "C09_gboost", "sources": ["C09_gboost.cpp"],
          "quick": ["n=3;loss=mse", "n=3;loss=mse;sub=1;batch=2", "n=2;loss=mae;batch=1", "n=3;loss=mae;part=bias", "n=3;loss=mae;part=scale;sub=1", "n=3;loss=mse;part=scale;groups=1;unas=2", "n=3;loss=mae;part=scale;groups=1;unas=5", "n=3;loss=mse;part=scale;groups=1;unas=0", "n=3;loss=mse;part=scale;groups=3;unas=0", "n=3;loss=mse;batch=1;threads=3;sched=0", "n=3;loss=mae;part=scale;batch=1;threads=2;sched=2", "n=3;loss=mse;part=grads;batch=1;threads=3;sched=1",
                    "n=2;loss=mse;part=bias;batch=1;threads=2;sched=3", "n=3;loss=mse;part=bias;batch=1;threads=6;sched=3", "n=3;loss=mse;part=scale;batch=1;threads=11;sched=2", "n=3;loss=mse;part=bias;batch=1;threads=7;sched=2",
-                   "n=3;loss=mae;part=grads", "n=1;loss=m-hinge;tk=s;part=scale", "n=1;loss=m-hinge;tk=s;part=grads", "n=2;loss=m-hinge;tk=s;part=bias"],
+                   "n=3;loss=mae;part=grads", "n=1;loss=m-hinge;tk=s;part=scale", "n=1;loss=m-hinge;tk=s;part=grads", "n=2;loss=m-hinge;tk=s;part=bias",
+                   "n=3;loss=mse;part=scale;sub=2", "n=3;loss=mae;part=scale;sub=2;groups=1;unas=0", "n=3;loss=mse;part=bias;sub=2", "n=3;loss=mae;part=grads;sub=2", "n=2;loss=mse;part=scale;sub=2;batch=1;threads=2;sched=0"],
          "thorough": ["n=%d;loss=%s;part=%s;sub=%d;batch=%d" % (n, l, p, s, b) for n in (2, 3) for l in ("mse", "mae") for p in ("bias", "scale", "grads") for (s, b) in ((0, 100), (1, 2))] +
                      ["n=2;loss=m-hinge;tk=s;part=%s" % p for p in ("bias", "scale", "grads")] +
                      ["n=3;loss=%s;part=scale;groups=%d;unas=%d" % (l, g, u) for l in ("mse", "mae") for (g, u) in ((1, 2), (1, 5), (1, 0), (1, 7), (3, 0), (3, 4), (2, 0))] +
